@@ -453,26 +453,28 @@ package radius
 //@   ghost queuedStops mathint = 0
 //@   ghost queuedStarts mathint = 0
 //@   ghost queuedOther mathint = 0
-// one attempt per call, of the record's own request; nothing is re-queued under a new id
-//@   ensures acctStops == ite(record.Request.StatusType == AcctStatusStop, 1, 0) && acctStarts == ite(record.Request.StatusType == AcctStatusStart, 1, 0)
+// (critical sections in program order: #1 the look-up "is this record still queued", #2 removal of an
+// acknowledged record, #3 the failure section with releases #3 (abandoned) and #4 (retry scheduled))
+// "a Stop the server has already acknowledged is never sent again": an acknowledged record is out of
+// the queue, so a record that is no longer queued (under its id, as this very record) when the
+// processor gets to it is not sent
+//@   ensures !(lockedN(1, record.ID in am.pendingRecords) && lockedN(1, am.pendingRecords[record.ID]) == record) ==> rad_sent_count() == old(rad_sent_count()) && acctStops == 0 && acctStarts == 0 && record.RetryCount == old(record.RetryCount)
+// a queued record: one attempt per call, of the record's own request; nothing is re-queued under a new id
+//@   ensures lockedN(1, record.ID in am.pendingRecords) && lockedN(1, am.pendingRecords[record.ID]) == record ==> acctStops == ite(record.Request.StatusType == AcctStatusStop, 1, 0) && acctStarts == ite(record.Request.StatusType == AcctStatusStart, 1, 0)
 //@   ensures rad_sent_count() <= old(rad_sent_count()) + 1
 //@   ensures queuedStops == 0 && queuedStarts == 0 && queuedOther == 0
 //@   ensures record.Request == old(record.Request) && record.ID == old(record.ID)
 //@   ensures old(record.RetryCount) < 9223372036854775807 ==> record.RetryCount == old(record.RetryCount) || record.RetryCount == old(record.RetryCount) + 1
 // a record the server acknowledged leaves the queue (and only that record)
-//@   ensures record.RetryCount == old(record.RetryCount) ==> acctSent() && unlockedN(1, dom(am.pendingRecords) == lockedN(1, dom(am.pendingRecords))[record.ID := false])
-//@   ensures record.RetryCount == old(record.RetryCount) ==> forall k string :: k != record.ID ==> unlockedN(1, am.pendingRecords[k]) == lockedN(1, am.pendingRecords[k])
+//@   ensures acctStops + acctStarts != 0 && record.RetryCount == old(record.RetryCount) ==> acctSent() && unlockedN(2, dom(am.pendingRecords) == lockedN(2, dom(am.pendingRecords))[record.ID := false])
+//@   ensures acctStops + acctStarts != 0 && record.RetryCount == old(record.RetryCount) ==> forall k string :: k != record.ID ==> unlockedN(2, am.pendingRecords[k]) == lockedN(2, am.pendingRecords[k])
 // retry budget: after a failed attempt the record stays queued iff fewer than MaxRetries attempts have failed
-//@   ensures record.RetryCount == old(record.RetryCount) + 1 && record.RetryCount >= am.config.MaxRetries ==> unlockedN(2, dom(am.pendingRecords) == lockedN(2, dom(am.pendingRecords))[record.ID := false])
-//@   ensures record.RetryCount == old(record.RetryCount) + 1 && record.RetryCount < am.config.MaxRetries ==> unlockedN(3, dom(am.pendingRecords) == lockedN(2, dom(am.pendingRecords)) && vals(am.pendingRecords) == lockedN(2, vals(am.pendingRecords)))
-// the same three facts over the state this call leaves behind (the unlockedN clauses above speak about
-// the state at a given release, whichever branch condition leads there)
-//@   ensures record.RetryCount == old(record.RetryCount) ==> record.ID !in am.pendingRecords
+//@   ensures record.RetryCount == old(record.RetryCount) + 1 && record.RetryCount >= am.config.MaxRetries ==> unlockedN(3, dom(am.pendingRecords) == lockedN(3, dom(am.pendingRecords))[record.ID := false])
+//@   ensures record.RetryCount == old(record.RetryCount) + 1 && record.RetryCount < am.config.MaxRetries ==> unlockedN(4, dom(am.pendingRecords) == lockedN(3, dom(am.pendingRecords)) && vals(am.pendingRecords) == lockedN(3, vals(am.pendingRecords)))
+// the same facts over the state this call leaves behind
+//@   ensures lockedN(1, record.ID in am.pendingRecords) && lockedN(1, am.pendingRecords[record.ID]) == record && record.RetryCount == old(record.RetryCount) ==> record.ID !in am.pendingRecords
 //@   ensures record.RetryCount == old(record.RetryCount) + 1 && record.RetryCount >= am.config.MaxRetries ==> record.ID !in am.pendingRecords
 //@   ensures record.RetryCount == old(record.RetryCount) + 1 && record.RetryCount < am.config.MaxRetries ==> dom(am.pendingRecords) == locked(dom(am.pendingRecords)) && vals(am.pendingRecords) == locked(vals(am.pendingRecords))
-// "a Stop the server has already acknowledged is never sent again": an acknowledged record is out
-// of the queue, so a record that is no longer queued when the processor gets to it must not be sent
-//@   ensures old(record.ID !in am.pendingRecords) ==> rad_sent_count() == old(rad_sent_count()) && acctStops == 0 && acctStarts == 0
 //@   sets acctStops = acctStops + ite(record.Request.StatusType == AcctStatusStop, 1, 0)
 //@   sets acctStarts = acctStarts + ite(record.Request.StatusType == AcctStatusStart, 1, 0)
 //@   sets pendAttempts = pendAttempts + 1
